@@ -318,7 +318,55 @@ def o_c14(kind, case, r):
     return None
 
 
+def c09_trace(case, r):
+    """within a session: a completed entry is never removed or replaced, and no call submitted after
+    its entry was completed executes the function (calls submitted before may still be running)"""
+    nodeps = not any(c.get("deps") for c in case["calls"])        # with Future arguments one call may have two keys under one tag
+    ends = [s["steps"] for s in r["sessions"]]
+    done_at = {}           # tag -> step at which the entry became complete
+    writing = set()
+    for step, (en, pick, lab) in enumerate(r["trace"]):
+        if lab[0] == "rename" and str(lab[2]).endswith(".h5out"):
+            if lab[2] in done_at and nodeps:
+                return "completed cache entry %s was replaced at step %d (a second result file renamed onto it)" % (lab[2], step)
+            done_at.setdefault(lab[2], step)
+        elif lab[0] == "h5" and lab[1] == "ds" and str(lab[2]).endswith(".h5out") and lab[3] == "output":
+            writing.add(lab[2])
+        elif lab[0] == "h5" and lab[1] == "close" and lab[2] in writing:
+            writing.discard(lab[2])
+            done_at.setdefault(lab[2], step)
+        elif lab[0] == "remove" and lab[1] in done_at:
+            return "completed cache entry %s was deleted at step %d" % (lab[1], step)
+    if not nodeps:
+        return None
+    for tag, t0 in done_at.items():
+        m = re.match(r"k(\d+)\.h5out$", tag)
+        if not m:
+            continue
+        key = int(m.group(1))
+        sess = next((k for k, e in enumerate(ends) if t0 < e), len(ends) - 1)
+        lo = 0 if sess == 0 else ends[sess - 1]
+        hi = ends[sess]
+        sub_before = bodies_before = bodies_after = 0
+        for step in range(lo, hi):
+            en, pick, lab = r["trace"][step]
+            if lab[0] == "put" and str(lab[2]).startswith("T") and canon(case, int(str(lab[2])[1:])) == key and step < t0:
+                sub_before += 1
+            if lab[0] == "body" and lab[1] == key:
+                if step < t0:
+                    bodies_before += 1
+                else:
+                    bodies_after += 1
+        if bodies_after > max(0, sub_before - bodies_before):
+            return ("the entry of call %d was complete at step %d, yet its function was executed again afterwards for a call "
+                    "submitted later in the same executor" % (key, t0))
+    return None
+
+
 def o_c09(kind, case, r):
+    w = c09_trace(case, r)
+    if w:
+        return w
     completed = {}     # canonical id -> content hash of its published entry
     for k, s in enumerate(r["sessions"]):
         bodies = seg_bodies(r, k)
@@ -432,6 +480,23 @@ def cache_check(res, pid, cone, extra=None, n_file=(40, 400), n_cache=(30, 300))
         if fx_div:
             pr["ok"] = False
             pr["broken"].append({"kind": "file-lockstep", "error": fx_div[:2]})
+        # programs without cancellation are also judged by the property's oracle
+        def waits_after_shutdown(ops):
+            # file-mode shutdown terminates the tasks still running; a result() after it waits for a
+            # future nobody will complete — outside what these properties state
+            seen = False
+            for o in ops:
+                if o[0] in ("shutdown", "exit"):
+                    seen = True
+                elif o[0] == "result" and seen:
+                    return True
+            return False
+
+        for c, r in zip(fx_cases, fx_rs):
+            if c.get("nocancel") and "sessions" in r and not waits_after_shutdown(c["ops"]):
+                c2 = dict(c)
+                c2["sessions"] = [{"ops": c["ops"]}]
+                runs.append(("file", c2, r))
         if fx_harness:
             pr["ok"] = False
             pr["broken"].append({"kind": "harness", "error": [(r.get("error") or "")[-300:] for r in fx_harness[:2]]})
